@@ -64,6 +64,16 @@ Proof.
     intros H; unfold cadd, csub; repeat destr_if; cbn [bind]; zb; try lia; eauto.
 Qed.
 
+(* the same facts without the upper bound on operands (used for state invariants) *)
+Definition wf0 (a : sint) : Prop := 0 <= sval a.
+Lemma sadd_toZ0 a b r : wf0 a -> wf0 b -> sadd a b = Ok r -> toZ r = toZ a + toZ b /\ wf0 r /\ canon r.
+Proof.
+  unfold wf0, sadd, canon; intros Ha Hb H; sint_cases; crush_arith;
+    (split; [lia | split; [lia | try discriminate; try congruence; intros; lia]]).
+Qed.
+Lemma wf_wf0 a : wf a -> wf0 a.
+Proof. unfold wf, wf0; lia. Qed.
+
 (* ---- negation / absolute value ---- *)
 Lemma sinvert_toZ a : toZ (sinvert a) = - toZ a.
 Proof. unfold sinvert, toZ; destruct a as [v []]; cbn; destruct (Z.eqb_spec v 0); cbn; lia. Qed.
@@ -75,6 +85,14 @@ Lemma sabs_toZ a : wf a -> toZ (sabs a) = Z.abs (toZ a).
 Proof. unfold wf; destruct a as [v []]; cbn; lia. Qed.
 Lemma sabs_canon a : canon (sabs a).
 Proof. unfold canon; cbn; discriminate. Qed.
+
+Lemma sinvert_wf0 a : wf0 a -> wf0 (sinvert a).
+Proof. unfold wf0; destruct a; auto. Qed.
+Lemma ssub_toZ0 a b r : wf0 a -> wf0 b -> ssub a b = Ok r -> toZ r = toZ a - toZ b /\ wf0 r /\ canon r.
+Proof.
+  unfold ssub; intros Ha Hb H. apply sadd_toZ0 in H; auto using sinvert_wf0.
+  rewrite sinvert_toZ in H. intuition lia.
+Qed.
 
 (* ---- subtraction ---- *)
 Lemma ssub_toZ a b r : wf a -> wf b -> ssub a b = Ok r -> toZ r = toZ a - toZ b /\ wf r /\ canon r.
